@@ -24,6 +24,9 @@ def L(name):
     return ast.Name(id=name, ctx=ast.Load())
 
 
+TOTALS = []   # substitutions per location reported by loop-aware reference builders
+
+
 def recipes(M):
     """(name, pattern factory, template source, reference builder(node, tags, R) -> new node or list, applicable(node))"""
     def wrap(n, tags, R):
@@ -47,7 +50,22 @@ def recipes(M):
     def attr(n, tags, R):
         return ast.Call(func=L('getattr'), args=[R(n.value), ast.Constant(value=n.attr)], keywords=[]) if False else ast.Subscript(value=R(n.value), slice=L('key'), ctx=ast.Load())
 
-    return [
+    def assign_to_with(n, tags, R):
+        return ast.With(items=[ast.withitem(context_expr=R(n.value), optional_vars=R(n.targets[0]))], body=[ast.Pass()])
+
+    def mk_fold(N):
+        def fold(n, tags, R):
+            elts = [R(e) for e in n.elts]
+            subs = 0
+            while len(elts) >= 2 and (subs < 1 if N is False else (N is True or N <= 0 or subs < N)):
+                elts = [ast.BinOp(left=elts[0], op=ast.Add(), right=elts[1])] + elts[2:]
+                subs += 1
+            TOTALS.append(subs)
+            return ast.List(elts=elts, ctx=ast.Load())
+        return fold
+    folds = [(f'fold-list-loop={N}', lambda: M.MList(elts=[M.M(a=...), M.M(b=...), M.MQSTAR(tail=...)]), '[__FST_a + __FST_b, __FST_tail]', mk_fold(N), {'loop': N}) for N in (False, 1, 2, 3, True)]
+    return folds + [
+        ('assign-to-with-as', lambda: M.MAssign(targets=[M.M(n=...)], value=M.M(v=...)), 'with __FST_v as __FST_n: pass', assign_to_with, None),
         ('wrap-name', lambda: M.MName(ctx=ast.Load), 'log(__FST_)', wrap, None),
         ('wrap-name-or-attr', lambda: M.MOR(M.MName(ctx=ast.Load), M.MAttribute(ctx=ast.Load)), 'log(__FST_)', wrap, None),
         ('swap-binop', lambda: M.MBinOp(left=M.M(l=...), right=M.M(r=...)), 'swap(__FST_r, __FST_l)', swap, None),
@@ -132,7 +150,7 @@ def build_reference(tree, root2, pat, builder, nested, count, on):
     return new, n_repl[0], ranges + par_ranges
 
 
-def run_window(ctx, FST, M, src, label, rnd):
+def run_window(ctx, FST, M, src, label, rnd, only=None):
     from ..base import insync, short, refparse
     base, _ = refparse(src)
     if base is None:
@@ -143,15 +161,21 @@ def run_window(ctx, FST, M, src, label, rnd):
         return
     RCP = recipes(M)
     rnd.shuffle(RCP)
-    for name, mkpat, tmpl, builder, _ in RCP[:4]:
+    if only:
+        RCP = [r for r in RCP if r[0] == only['recipe']]
+    for name, mkpat, tmpl, builder, extra in RCP[:5]:
         if ctx.out_of_time():
             return
+        extra = extra or {}
+        del TOTALS[:]
         nested = rnd.random() < 0.4 and name.startswith('wrap')
         count = rnd.choice([0, 0, 0, 1, 2])
+        if only:
+            nested, count = only['nested'], only['count']
         on = 'enter'
         if nested and count:
             count = 0
-        if name.startswith('identity'):
+        if name.startswith('identity') or extra:
             nested = False
         try:
             root = FST(src, 'exec')
@@ -168,8 +192,9 @@ def run_window(ctx, FST, M, src, label, rnd):
             ref, nref, ranges = br
             ast.fix_missing_locations(ref)
             want = ast.parse(ast.unparse(ref))
-            if ast.dump(ast.parse(ast.unparse(want))) != ast.dump(want):
-                ctx.count('reference_not_valid_python(skipped)')
+            from .c07 import Sn as _Sn
+            if ast.dump(ast.parse(ast.unparse(want))) != ast.dump(want) or _Sn(want) != _Sn(ref):
+                ctx.count('reference_not_valid_python(skipped)')   # e.g. a Starred as an operand: the unparsed reference re-parses to something else
                 continue
         except RecursionError:
             continue
@@ -179,7 +204,7 @@ def run_window(ctx, FST, M, src, label, rnd):
         if nref == 0:
             ctx.count('no_match_in_window')
         try:
-            out, uniq, total = root.subn(mkpat(), tmpl, nested, count=count, on=on, norm=True)
+            out, uniq, total = root.subn(mkpat(), tmpl, nested, count=count, on=on, norm=True, **extra)
         except Exception as e:
             if nref == 0:
                 continue
@@ -200,8 +225,11 @@ def run_window(ctx, FST, M, src, label, rnd):
         if got is None or Sn(got) != Sn(want):
             ctx.violation(f'sub-result-differs-from-reference:{name}', f'{name} ({settings}) on {short(src, 200)!r}: result {short(root.src, 240)!r} != reference {short(ast.unparse(want), 240)!r}', case)
             continue
-        if uniq != nref or total != nref:
-            ctx.violation(f'subn-count-differs:{name}', f'{name} ({settings}): subn reports unique={uniq} total={total}, reference made {nref} replacements', case)
+        want_total = sum(TOTALS) if 'loop' in extra else nref
+        if 'loop' in extra:
+            ctx.count('loop_substitutions_judged', want_total)
+        if uniq != nref or total != want_total:
+            ctx.violation(f'subn-count-differs:{name}', f'{name} ({settings}): subn reports unique={uniq} total={total}, reference made {nref} replacements / {want_total} substitutions', case)
             continue
         if name.startswith('identity') and Sn(got) != Sn(base):
             ctx.violation('identity-template-changes-structure', f'{name}: structure changed', case)
@@ -253,4 +281,4 @@ def replay(ctx, case):
     from fst import FST
     import fst.match as M
     import random
-    run_window(ctx, FST, M, case['src'], 'replay', random.Random(0))
+    run_window(ctx, FST, M, case['src'], 'replay', random.Random(0), only=case)
